@@ -512,7 +512,7 @@ def f_zeros_like(a, dtype=None, **kw):
     dtype = _dt(dtype)
     if dtype is None:
         if isinstance(a, SArr) or (isinstance(a, _np.ndarray) and _rdt(a) == object):
-            dtype = getattr(a, "_dt", None) or float
+            dtype = getattr(a, "_dt", None) or _infer_dt(a)
         else:
             a = _np.asarray(a) if not _has_symbolic(a) else sarr(a)
             dtype = a.dtype if _rdt(a) != object else float
